@@ -15,7 +15,7 @@ type c16Case struct {
 	Page  uint8  `json:"page"`
 	RAMEn bool   `json:"ram_en"`
 	Page2 uint8  `json:"page2,omitempty"`
-	At    int    `json:"at,omitempty"`   // restart / rewrite happens after this many cycles
+	At    int    `json:"at,omitempty"`    // restart / rewrite happens after this many cycles
 	Index int    `json:"index,omitempty"` // rewrite: byte index
 }
 
@@ -48,6 +48,14 @@ func c16Source(m *machine.M, page uint8) [160]uint8 {
 
 func c16Check(l *explore.Local, _ struct{}, c c16Case) *explore.Fail {
 	m := c16Machine(c.RAMEn)
+	if c.Kind == "lcdon" {
+		// the display is running: the transfer starts c.At cycles after the LCD was switched on (every phase
+		// of visible and v-blank lines); only the hardware is stepped, so no CPU access can arm the OAM bug
+		m.Map.Write(0xff40, 0x93)
+		for i := 0; i < c.At; i++ {
+			m.Hardware()
+		}
+	}
 	src := c16Source(m, c.Page)
 	desc := fmt.Sprintf("%s page=%02x ram_en=%v page2=%02x at=%d index=%d", c.Kind, c.Page, c.RAMEn, c.Page2, c.At, c.Index)
 	m.Map.Write(0xff46, c.Page)
@@ -137,11 +145,11 @@ func c16Check(l *explore.Local, _ struct{}, c c16Case) *explore.Fail {
 func init() {
 	register("C16", "model_checking", func(c *Ctx) {
 		if c.R != nil {
-			c.R.Rule = "on an MBC1+RAM cartridge with position-dependent contents in ROM, VRAM (LCD off), cartridge RAM, WRAM: (basic) every source page 00-F1 x RAM enabled/disabled: FE00, FE9F, FEA0, FEFF read FF after every cycle until completion, completion within 162 cycles, then OAM equals the 160 source bytes (E0-F1 through the WRAM mirror); (restart) a second FF46 write after every cycle 1-162 with 6 x 6 page pairs; (rewrite) one source byte changed after every cycle 0-165 for byte indices {0,1,79,80,158,159}: the byte must hold the value it had when copied (old or new accepted within one cycle of the copy)"
+			c.R.Rule = "on an MBC1+RAM cartridge with position-dependent contents in ROM, VRAM (LCD off), cartridge RAM, WRAM: (basic) every source page 00-F1 x RAM enabled/disabled: FE00, FE9F, FEA0, FEFF read FF after every cycle until completion, completion within 162 cycles, then OAM equals the 160 source bytes (E0-F1 through the WRAM mirror); (restart) a second FF46 write after every cycle 1-162 with 6 x 6 page pairs; (rewrite) one source byte changed after every cycle 0-165 for byte indices {0,1,79,80,158,159}: the byte must hold the value it had when copied (old or new accepted within one cycle of the copy); (lcdon) with the display running, a transfer started at every cycle position of six lines (hardware stepped without the CPU)"
 			c.R.Assumptions = []string{"completion is observed through FEA0 (00 when OAM is accessible, FF during a transfer)", "ROM-only cartridges are not used here (their A0-BF sources belong to C09/C11)"}
 		}
 		pages := []uint8{0x00, 0x80, 0xc0, 0xdf, 0xe0, 0xf1}
-		explore.Product(c.R, "dma", explore.PartOpt{Bound: "every cycle of every transfer observed", Domain: "pages 00-F1; restarts at every cycle; rewrites at every cycle"},
+		explore.Product(c.R, "dma", explore.PartOpt{Bound: "every cycle of every transfer observed", Domain: "pages 00-F1; restarts at every cycle; rewrites at every cycle; LCD on, transfer started at every cycle of lines 0, 1, 70, 143, 144, 153"},
 			func(yield func(c16Case) bool) {
 				for p := 0; p <= 0xf1; p++ {
 					for _, en := range []bool{true, false} {
@@ -157,6 +165,15 @@ func init() {
 						}
 						for r := 1; r <= 162; r++ {
 							if !yield(c16Case{Kind: "restart", Page: p1, RAMEn: true, Page2: p2, At: r}) {
+								return
+							}
+						}
+					}
+				}
+				for _, p := range []uint8{0xc0, 0x00, 0xa0} {
+					for _, line := range []int{0, 1, 70, 143, 144, 153} {
+						for o := 0; o < 114; o++ {
+							if !yield(c16Case{Kind: "lcdon", Page: p, RAMEn: true, At: line*114 + o}) {
 								return
 							}
 						}
